@@ -53,13 +53,13 @@ CHECKS = {
         text="1M generated stamp pairs, the exhaustive 5600-value boundary grid (31M ordered pairs), a regression corpus and 2M generated strings per quick run.",
         note="from_u64 on words whose fractional byte is >= 250 is outside the claim.", ref="3 C10"),
     "C12": dict(engine="E1-pure+E4", technique=PBT + " (round-trip + exhaustive single-bit-flip / truncation / crafted-short-frame mutation of every generated frame; end-to-end scripts over simulated TCP; libFuzzer+ASan campaign in the thorough tier)",
-        text="6000 generated messages per quick run (300k thorough), each expanded into all single-bit flips (frames <= 4 KiB), all truncations and crafted short frames with correct checksums (about 60M mutated frames per quick run), plus 6000 end-to-end exchange scripts over hyper/h2 on simulated TCP (values up to 300 KB, handler errors, raw invalid frames in front of a typed handler).",
+        text="6000 generated messages per quick run (300k thorough), each expanded into all single-bit flips (frames <= 4 KiB), all truncations and crafted short frames with correct checksums (about 60M mutated frames per quick run), plus 300k (10M thorough) frames handed to RequestContents::from_body as hyper bodies of 1-12 chunks without an announced length (intact, bit-flipped, truncated, extended), plus 6000 end-to-end exchange scripts over hyper/h2 on simulated TCP (values up to 300 KB, handler errors, raw invalid frames in front of a typed handler).",
         note="Frame level (DataView::using); an independent CRC32 decides whether a damaged frame must be refused.", ref="3 C12"),
     "C15": dict(engine="E1-pure+E3-cluster", technique=PBT + " (validity predicate in both directions over selection histories on shared cursors)",
         text="300k (quick) / 30M (thorough) layouts x selection histories through the public NodeSelector trait, plus 20k / 1M histories on one real node where membership snapshots (joins, leaves, whole data centres leaving, same-count replacements and moves) alternate with DatacakeNode::select_nodes.",
         note="Needs hook H-rng for reproducible data-centre choice; the oracle holds for every RNG outcome.", ref="3 C15"),
-    "C18": dict(engine="E2-actor", technique=PBT + " (generated yield schedules on a current-thread runtime + sampled OS schedules on 4 workers)",
-        text="20k generated schedules on a current-thread runtime (interleaving fully determined by generated yields) and 300 x 10 runs on a 4-worker runtime.",
+    "C18": dict(engine="E2-actor+E3-cluster", technique=PBT + " (generated yield schedules on a current-thread runtime + sampled OS schedules on 4 workers; node restart under replication traffic with simulated storage latency)",
+        text="20k generated schedules on a current-thread runtime (interleaving fully determined by generated yields) and 300 x 10 runs on a 4-worker runtime, plus 20k cluster histories in which a node holding persisted keyspaces starts while its peers replicate to it at generated instants around the load of the persisted state (storage reads answer 0-9 simulated ms late); every entry the node's storage holds afterwards must be in the set a fresh lookup serialises.",
         note="Schedules are sampled, not enumerated; a race needing preemption inside a non-awaiting section would be missed.", ref="3 C18"),
 }
 
